@@ -71,6 +71,17 @@ class C01(Monitor):
                     self.bad("double_placement", "job placed in two batches",
                              f"job {j} in batch {self.placed[k]} and batch {n} (epoch {sub.epoch})")
                 self.placed[k] = n
+            if sub.epoch == 0 and self.prop == "C01" and jobs:
+                # "either placed in exactly one batch or canceled without running": a job that already has
+                # a canceled result on disk must not be handed to the HPC as well
+                try:
+                    canceled = {r["name"] for _, r in state.all_rows(sub.out, tolerate=True) if r["status"] == "canceled"}
+                except OSError:
+                    canceled = set()
+                both = [j for j in jobs if j in canceled]
+                if both:
+                    self.bad("canceled_and_placed", "a job with a canceled result was also placed in a batch",
+                             f"batch {n}: {both} (epoch 0, seq {seq})")
         elif kind == "job_launch":
             sub = self.ctx.sub_for_abs((d.get("env") or {}).get("JADE_RUNTIME_OUTPUT"))
             if sub is None:
